@@ -164,9 +164,15 @@ func main() {
 			maxLen := 3
 			check := func(s []byte) *explore.Fail {
 				want := utf8.Valid(s)
-				for _, chunk := range []int{1, 0} {
+				// chunk -1 / -2: whole / byte-wise delivery where the last bytes come together with io.EOF
+				for _, chunk := range []int{1, 0, -1, -2} {
 					src := env.NewSrc(s)
-					src.Policy = env.FixedChunk(chunk)
+					if chunk > 0 {
+						src.Policy = env.FixedChunk(chunk)
+					} else if chunk == -2 {
+						src.Policy = env.FixedChunk(1)
+					}
+					src.WithLast = chunk < 0
 					u := wsutil.NewUTF8Reader(src)
 					buf := make([]byte, 8)
 					var err error
@@ -293,13 +299,20 @@ func main() {
 											frames = append(frames, mkf(1, true, second))
 											data, _ := streams.Wire(frames)
 											for _, d := range ds {
-												for _, ch := range []int{0, 1} {
+												for _, ch := range []int{0, 1, -1} {
 													d, ch, frames, op, second := d, ch, frames, op, second
 													t.Do(func() string {
 														return fmt.Sprintf("%s %s driver=%s chunk=%d second#%d", side, streams.Describe(frames), d.Name, ch, si)
 													}, func() *explore.Fail {
 														src := env.NewSrc(data)
-														src.Policy = env.FixedChunk(ch)
+														if ch > 0 {
+															src.Policy = env.FixedChunk(ch)
+														} else if ch < 0 {
+															// the transport hands over every frame's last bytes with nothing
+															// behind them yet: model a source that reports io.EOF together
+															// with the final bytes of the stream
+															src.WithLast = true
+														}
 														var res drivers.Result
 														d.Run(src, side, drivers.Cfg{CheckUTF8: true}, &res)
 														firstOK := op == 2 || utf8.Valid(msg)
